@@ -5,7 +5,7 @@ from .. import pm
 from ..cfg import CFG, facts_at, guards_of
 from ..flow import Flow
 from ..pm import U
-from ..srcmodel import AnalysisError, parent
+from ..srcmodel import AnalysisError, canon_eq, parent
 
 _cache = {}
 
